@@ -2,7 +2,9 @@
 
 from __future__ import annotations
 
+import contextlib
 import functools
+import io
 import itertools
 import math
 
@@ -19,7 +21,9 @@ RULE = (
     "case = (grid: 2 boxes / 2x2x1 / 2x2x2 boxes or a 2x2 / 3x3 mapped sketch, jitter level incl. one close to "
     "degenerate, clamp set: one or two movable vertices x clamp type {free, line with bounds, plane, radial, curve, "
     "parametric surface}, optional translation / rotation / symmetry link, minimisation method of 4, 1..3 iterations, "
-    "frame); the real optimizer is run with every optimize_clamp call wrapped to snapshot the point array. non-trivial "
+    "frame, optimize() called once or twice on the same optimizer, clamps built from copies or from the vertices' own "
+    "position arrays); the real optimizer is run with every optimize_clamp call wrapped to snapshot the point array; the "
+    "reported quality is compared with a fresh grid over the final points. non-trivial "
     "= a distinct optimisation run"
 )
 ASSUMPTIONS = [
@@ -67,6 +71,22 @@ def cases(tier, seed):
     for me in METHODS:
         out.append({"grid": "h222", "jitter": 3, "clamps": [[0, "free"]], "link": None, "method": me, "iterations": 2, "frame": 0})
         out.append({"grid": "s33", "jitter": 3, "clamps": [[0, "plane"], [1, "plane"], [2, "plane"], [3, "plane"]], "link": None, "method": me, "iterations": 2, "frame": 0})
+    # optimize() called twice on one optimizer (every clamp type; links), invariants after each call
+    for ci, cl in enumerate(CLAMPS):
+        out.append({"grid": "h222", "jitter": 1, "clamps": [[0, cl]], "link": None, "method": METHODS[ci % 4], "iterations": 2, "frame": frames[ci % 2], "runs": 2})
+    for link in ("translation", "rotation", "symmetry"):
+        out.append({"grid": "h221", "jitter": 1, "clamps": [[0, "plane" if link != "rotation" else "radial"]], "link": link, "method": "SLSQP", "iterations": 2, "frame": 0, "runs": 2})
+    # the examples' idiom: clamps built from the vertices' own position arrays; the line of the interior vertex runs
+    # between two boundary vertices, one of which is itself clamped (and moves)
+    for me in METHODS:
+        for runs in (1, 2):
+            out.append({"grid": "h222", "jitter": 1, "clamps": [[0, "line_ab"], [1, "plane"]], "link": None, "method": me, "iterations": 2, "frame": 0, "runs": runs, "alias": True})
+    for ci, cl in enumerate(CLAMPS):
+        out.append({"grid": "h222", "jitter": 1, "clamps": [[0, cl]], "link": None, "method": METHODS[(ci + 1) % 4], "iterations": 2, "frame": 4, "runs": 2, "alias": True})
+    # four boxes in a row: the follower's cells are far from the leader's
+    for me in METHODS:
+        for runs in (1, 2):
+            out.append({"grid": "h411", "jitter": 2, "clamps": [[0, "plane"]], "link": "translation", "method": me, "iterations": 2, "frame": 4, "runs": runs})
     if not q:
         for cl in CLAMPS:
             for me in METHODS:
@@ -106,6 +126,10 @@ def build(case):
             movable = [ids[(1, 1, 1)]]
             if case.get("link") == "translation2":
                 movable += [ids[(1, 1, 0)], ids[(1, 1, 2)]]
+            if case["clamps"][0][1] == "line_ab":
+                movable += [ids[(0, 1, 1)], ids[(2, 1, 1)]]
+        elif g == "h411":
+            movable = [ids[(1, 0, 1)], ids[(3, 0, 1)]]
         elif g == "h221":
             movable = [ids[(1, 1, 1)], ids[(1, 1, 0)]]
         else:
@@ -117,11 +141,19 @@ def build(case):
                 d[2] = 0.0
             if g == "h221":
                 d[2] = 0.0  # stay on the top / bottom plane
-            if g == "h211":
+            if case["clamps"][0][1] == "line_ab":
+                # interior vertex along the line a-b, a inside its boundary plane, b where it is
+                d = [np.array([d[0], 0.0, 0.0]), np.array([0.0, d[1], d[2]]), np.zeros(3)][k]
+            if g == "h411":
+                d = jitter_vec(2) * lvl  # leader and follower are displaced alike
+            if g in ("h211", "h411"):
                 d[0] = 0.0
                 d[1] = abs(d[1])
                 d[2] = -abs(d[2])  # stay on the shared face, inside the boxes' outline
             P[v] += d
+        if case["clamps"][0][1] == "line_ab":
+            # the interior vertex sits on the line between the (displaced) a and b, off-centre
+            P[movable[0]] = P[movable[1]] + (0.5 - 0.4 * lvl) * (P[movable[2]] - P[movable[1]])
         kind = "hex"
     else:
         n = int(g[1])
@@ -229,7 +261,7 @@ def run_case(case):
         flat = None
         if case["grid"] == "h221":
             flat = FRAMES[fr][0] @ np.array([0, 0, 1.0])
-        if case["grid"] == "h211":
+        if case["grid"] in ("h211", "h411"):
             flat = FRAMES[fr][0] @ np.array([1.0, 0, 0])
     else:
         sketch = cb.MappedSketch(P, cells)
@@ -243,7 +275,26 @@ def run_case(case):
             v = movable[mi]
             if cname == "free" and flat is not None:
                 cname = "plane"
-            cl, dist = make_clamp(cname, P[v].copy(), fr, k, flat)
+            pos = P[v].copy()
+            flat_k = flat
+            if case.get("alias") and kind == "hex":
+                pos = mesh.vertices[to_grid[v]].position  # the vertex's own array, as the library's examples do
+            if cname == "line_ab":
+                a_arr, b_arr = (mesh.vertices[to_grid[movable[j]]].position for j in (1, 2))
+                a0, b0 = a_arr.copy(), b_arr.copy()
+                cl = cb.LineClamp(pos, a_arr, b_arr)
+
+                def dist(p, a0=a0, b0=b0):
+                    u = (b0 - a0) / np.linalg.norm(b0 - a0)
+                    t = float((p - a0) @ u)
+                    return max(np.linalg.norm((p - a0) - t * u), max(0.0, -t, t - np.linalg.norm(b0 - a0)))
+
+                opt.add_clamp(cl)
+                clamped[to_grid[v]] = (cl, dist, cname)
+                continue
+            if case["clamps"][0][1] == "line_ab" and k == 1:
+                flat_k = FRAMES[fr][0] @ np.array([1.0, 0, 0])
+            cl, dist = make_clamp(cname, pos, fr, k, flat_k)
             opt.add_clamp(cl)
             clamped[to_grid[v]] = (cl, dist, cname)
         follower = None
@@ -292,63 +343,88 @@ def run_case(case):
         bad("setup-raised", f"{type(err).__name__}: {err}")
         return {"violations": violations, "outcome": "setup-raised", "execs": 1, "nontrivial": True}
 
-    initial = grid.points.copy()
-    q0 = float(grid.quality)
-    calls = []
-    orig = opt.optimize_clamp
+    orig_optimize_clamp = opt.optimize_clamp
 
-    @functools.wraps(orig)
-    def wrapped(clamp, method):
-        before = grid.points.copy()
-        qb = float(grid.quality)
-        orig(clamp, method)
-        qa = float(grid.quality)
-        calls.append((qb, qa, before, grid.points.copy()))
+    def one_run(run):
+        def bad(clause, detail, **kw):  # noqa: F811
+            violations.append({"clause": clause, "coords": dict(case, run=run, **kw) if runs > 1 else dict(case, **kw), "detail": detail})
 
-    opt.optimize_clamp = wrapped
-    try:
-        opt.optimize(max_iterations=case["iterations"], tolerance=1e-12, method=case["method"])
-    except Exception as err:
-        bad("optimize-raised", f"{type(err).__name__}: {err}")
-        return {"violations": violations, "outcome": "raised", "execs": 1, "nontrivial": True}
-    q1 = float(grid.quality)
-    final = grid.points
-    if q1 > q0 * (1 + 1e-9) + 1e-12:
-        bad("quality-worsened", f"summed quality {q0} -> {q1}")
-    for ci, (qb, qa, before, after) in enumerate(calls):
-        if qa > qb * (1 + 1e-9) + 1e-12:
-            bad("clamp-step-worsened-quality", f"optimize_clamp call {ci}: {qb} -> {qa}", call=ci)
-        if qa >= qb and not np.array_equal(before, after):
-            bad("no-improvement-but-points-moved", f"optimize_clamp call {ci} did not improve the grid ({qb} -> {qa}) but left {int(np.sum(np.any(before != after, axis=1)))} points moved (half-applied / not rolled back)", call=ci)
-    moved_ok = set(clamped)
-    if follower:
-        moved_ok.add(follower[1])
-    for li, fi, offset in followers2:
-        moved_ok.add(fi)
-        if np.linalg.norm((final[fi] - final[li]) - offset) > 1e-7:
-            bad("follower-relation-broken", f"translation link to grid point {fi}: follower off by {np.linalg.norm((final[fi] - final[li]) - offset):.3g}")
-    for i in range(len(final)):
-        if i not in moved_ok and not np.array_equal(final[i], initial[i]):
-            bad("unclamped-vertex-moved", f"grid point {i} moved by {np.linalg.norm(final[i] - initial[i]):.3g}", point=i)
-            break
-    for gi, (cl, dist, cname) in clamped.items():
-        d = dist(final[gi])
-        if d > 1e-6:
-            bad("clamped-vertex-off-constraint", f"{cname} clamp: vertex is {d:.3g} off its manifold / bounds", point=gi)
-        if np.linalg.norm(np.asarray(cl.position) - final[gi]) > 1e-9:
-            bad("clamp-position-differs-from-grid", f"{cname}: clamp reports {np.round(cl.position, 6).tolist()}, grid has {np.round(final[gi], 6).tolist()}", point=gi)
-    if follower:
-        li, fi, rel = follower
-        r = rel(final[li], final[fi])
-        if r > 1e-7:
-            bad("follower-relation-broken", f"{case['link']} link: follower off by {r:.3g}")
-    # backport: mesh vertices / sketch points equal the optimizer's final positions
-    if kind == "hex":
-        mv = np.array([v.position for v in mesh.vertices])
-    else:
-        mv = np.array(sketch.positions)
-    if np.max(np.linalg.norm(mv - final, axis=1)) > 1e-12:
-        bad("mesh-differs-from-final-positions", f"max difference {np.max(np.linalg.norm(mv - final, axis=1)):.3g}")
+        initial = grid.points.copy()
+        q0 = float(grid.quality)
+        calls = []
+        orig = orig_optimize_clamp
+
+        @functools.wraps(orig)
+        def wrapped(clamp, method):
+            before = grid.points.copy()
+            qb = float(grid.quality)
+            orig(clamp, method)
+            qa = float(grid.quality)
+            calls.append((qb, qa, before, grid.points.copy()))
+
+        opt.optimize_clamp = wrapped
+        try:
+            with contextlib.redirect_stdout(io.StringIO()):  # the iteration table is printed whatever `report` says
+                opt.optimize(max_iterations=case["iterations"], tolerance=1e-12, method=case["method"])
+        except Exception as err:
+            bad("optimize-raised", f"{type(err).__name__}: {err}")
+            return None
+        q1 = float(grid.quality)
+        final = grid.points
+        if q1 > q0 * (1 + 1e-9) + 1e-12:
+            bad("quality-worsened", f"summed quality {q0} -> {q1}")
+        for ci, (qb, qa, before, after) in enumerate(calls):
+            if qa > qb * (1 + 1e-9) + 1e-12:
+                bad("clamp-step-worsened-quality", f"optimize_clamp call {ci}: {qb} -> {qa}", call=ci)
+            if qa >= qb and not np.array_equal(before, after):
+                bad("no-improvement-but-points-moved", f"optimize_clamp call {ci} did not improve the grid ({qb} -> {qa}) but left {int(np.sum(np.any(before != after, axis=1)))} points moved (half-applied / not rolled back)", call=ci)
+        moved_ok = set(clamped)
+        if follower:
+            moved_ok.add(follower[1])
+        for li, fi, offset in followers2:
+            moved_ok.add(fi)
+            if np.linalg.norm((final[fi] - final[li]) - offset) > 1e-7:
+                bad("follower-relation-broken", f"translation link to grid point {fi}: follower off by {np.linalg.norm((final[fi] - final[li]) - offset):.3g}")
+        for i in range(len(final)):
+            if i not in moved_ok and not np.array_equal(final[i], initial[i]):
+                bad("unclamped-vertex-moved", f"grid point {i} moved by {np.linalg.norm(final[i] - initial[i]):.3g}", point=i)
+                break
+        for gi, (cl, dist, cname) in clamped.items():
+            d = dist(final[gi])
+            if d > 1e-6:
+                bad("clamped-vertex-off-constraint", f"{cname} clamp: vertex is {d:.3g} off its manifold / bounds", point=gi)
+            if np.linalg.norm(np.asarray(cl.position) - final[gi]) > 1e-9:
+                bad("clamp-position-differs-from-grid", f"{cname}: clamp reports {np.round(cl.position, 6).tolist()}, grid has {np.round(final[gi], 6).tolist()}", point=gi)
+        if follower:
+            li, fi, rel = follower
+            r = rel(final[li], final[fi])
+            if r > 1e-7:
+                bad("follower-relation-broken", f"{case['link']} link: follower off by {r:.3g}")
+        # backport: mesh vertices / sketch points equal the optimizer's final positions
+        if kind == "hex":
+            mv = np.array([v.position for v in mesh.vertices])
+        else:
+            mv = np.array(sketch.positions)
+        if np.max(np.linalg.norm(mv - final, axis=1)) > 1e-12:
+            bad("mesh-differs-from-final-positions", f"max difference {np.max(np.linalg.norm(mv - final, axis=1)):.3g}")
+        # quality depends on the current shape only: a fresh optimizer over the back-ported mesh/sketch reports the same sum
+        fresh = type(opt)(mesh if kind == "hex" else sketch, report=False)
+        qf = float(fresh.grid.quality)
+        if abs(qf - q1) > 1e-9 * (1 + abs(qf)):
+            bad("reported-quality-differs-from-fresh-grid", f"the optimizer's grid reports {q1}, a new grid over the same points {qf}")
+        return q0, q1, calls
+
+    runs = case.get("runs", 1)
+    all_calls = []
+    q_first = q_last = None
+    for run in range(runs):
+        res = one_run(run)
+        if res is None:
+            return {"violations": violations, "outcome": "raised", "execs": 1, "nontrivial": True}
+        q_first = res[0] if q_first is None else q_first
+        q_last = res[1]
+        all_calls += res[2]
+    q0, q1, calls = q_first, q_last, all_calls
     improved = q1 < q0 - 1e-9
     rolled = sum(1 for qb, qa, b, a in calls if qa >= qb)
     return {
